@@ -406,6 +406,7 @@ func (ex *Exec) RunPath(fn *ssa.Function, prefix []Decision) (res PathResult) {
 	ex.hb = nil
 	ex.MapRev = false
 	ex.PreemptBound = ex.PreemptBoundDefault
+	ex.SchedForkBound = 4 + 2*ex.Tier
 	ex.clock = 0
 	ex.sleeps = nil
 	main := &goroutine{id: 0, wake: make(chan struct{}), exited: make(chan struct{}), started: true}
